@@ -1481,6 +1481,11 @@ const SCENARIOS: &[(&str, &[(&str, &[u8])], Option<(&str, u32, u32, &str)>)] = &
 		("d.bin", b"M"), ("c.asm", b".du8 0x11;\n"), ("sub/b.asm", b".dfile \"d.bin\";\n.include \"c.asm\";\n.dfile \"d.bin\";\n"), ("sub/d.bin", b"S"), ("sub/c.asm", b".du8 0x22;\n")], None),
 	("path-after-include", &[("main.asm", b".addr 0x100;\n.include \"sub/b.asm\";\n.dfile \"only_here.bin\";\n.include \"only_here.asm\";\n"),
 		("only_here.bin", b"M"), ("only_here.asm", b".du8 0x11;\n"), ("sub/b.asm", b".include \"deep/e.asm\";\n.dfile \"s.bin\";\n"), ("sub/s.bin", b"S"), ("sub/deep/e.asm", b".dfile \"s.bin\";\nNOP;\n"), ("sub/deep/s.bin", b"D")], None),
+	// `.addr` to an address that holds output is refused also when it is the cursor of the region being written (gap filled exactly; top)
+	("occupied-cursor", &[("main.asm", b".addr 0x110;\n.du32 1;\n.addr 0x108;\n.du32 2;\n.du32 3;\n.addr 0x110;\n")], Some(("main.asm", 6, 1, "occupied.00000110"))),
+	("occupied-cursor", &[("main.asm", b".addr 0x110;\nNOP;\n.addr 0x108;\n.include \"fill.asm\";\n  .addr 0x110;\nx:\n"), ("fill.asm", b".du32 2;\n.du32 3;\n")], Some(("main.asm", 5, 3, "occupied.00000110"))),
+	("occupied-cursor", &[("main.asm", b".addr 0xFFFFFFFE;\n.du16 1;\n.addr 0xFFFFFFFF;\n")], Some(("main.asm", 3, 1, "occupied.ffffffff"))),
+	("occupied-cursor", &[("main.asm", b".addr 0xFFFFFFFF;\n.du8 1;\n.addr 0xFFFFFFFF;\n.addr 0x100;\nNOP;\n")], Some(("main.asm", 3, 1, "occupied.ffffffff"))),
 	// a name published twice across an include: the included file re-publishes a name the includer already owns
 	("duplicate-across-include", &[("main.asm", b".addr 0x100;\n.const x9, 1;\n.include \"c.asm\";\n.du8 x9;\n"), ("c.asm", b".const x9, 2;\n.global x9;\n")], Some(("c.asm", 2, 1, "duplicate"))),
 	("duplicate-across-include", &[("main.asm", b".addr 0x100;\n.const x9, 1;\n.include \"c.asm\";\n.du8 x9;\n"), ("c.asm", b".const x9, 2;\n.export x9;\n")], Some(("c.asm", 2, 1, "duplicate"))),
